@@ -415,12 +415,14 @@ def leaf_key_es(j):
     if kind == "exists":
         return (body["field"], "*")
     if kind in ("query_string", "multi_match"):
-        return (body.get("default_field"), body.get("query"))
+        m = body.get("fuzziness", body.get("slop"))
+        return (body.get("default_field"), body.get("query")) + ((_mod_key(m),) if m is not None else ())
     f = [k for k in body.keys()][0]
     v = body[f]
     if kind == "range":
         return (f, json.dumps({k: v[k] for k in v if k in ("gte", "gt", "lte", "lt")}, sort_keys=True))
-    return (f, v.get("query", v.get("value")))
+    m = v.get("fuzziness", v.get("slop"))
+    return (f, v.get("query", v.get("value"))) + ((_mod_key(m),) if m is not None else ())
 
 
 def phrase_text(v):
@@ -431,7 +433,17 @@ def phrase_text(v):
 WRAPPERS = ("Group", "FieldGroup", "Boost", "SearchField")
 
 
-def denote(d, o, cfg, containers, truth, prefix=(), quirks=()):
+def _mod_key(x):
+    """a fuzziness / slop as a comparable value"""
+    if x is None:
+        return None
+    try:
+        return float(x)
+    except (TypeError, ValueError):
+        return str(x)
+
+
+def denote(d, o, cfg, containers, truth, prefix=(), quirks=(), mod=None):
     """truth of the luqum tree (json) at object o. `quirks` switches on the behaviour of known findings
     (KF3: operands of a boolean operation are classified through group / field / boost wrappers;
     KF4: a boolean operation directly inside another one is spliced into it)"""
@@ -440,19 +452,30 @@ def denote(d, o, cfg, containers, truth, prefix=(), quirks=()):
     dflt_or = cfg.get("default_operator", "should") == "should"
     field = ".".join(prefix) if prefix else cfg.get("default_field", "text")
 
-    def rec(x, oo=o, pp=prefix):
-        return denote(x, oo, cfg, containers, truth, pp, quirks)
+    def rec(x, oo=o, pp=prefix, mod=None):
+        return denote(x, oo, cfg, containers, truth, pp, quirks, mod)
+    # (a term and the same term with a fuzziness / slop are different clauses: `smith` and `smith~1` do not match the
+    # same documents; the modifier is part of the key the truth assignment is drawn for -- seeded C05-G)
+    # (per-field options may also bring a fuzziness / slop: the clause carries the query's own modifier, else the option's)
+    # (whether `~n` ends up as `fuzziness` or `slop` is the builder's business -- C06 --; here only its value counts.
+    # C05 strips fuzziness / slop from the per-field options, so a modifier in the clause is the query's own)
+    suffix = (_mod_key(mod[1]),) if mod else ()
     if c == "Word":
-        return truth(o, (field, d["v"]))
+        # (`field:*` is an exists clause: a fuzziness has nothing to apply to)
+        return truth(o, (field, d["v"]) + (suffix if d["v"] != "*" else ()))
     if c == "Phrase":
         na = cfg.get("not_analyzed_fields") or []
-        return truth(o, (field, phrase_text(d["v"]) if field not in na else d["v"][1:-1]))
+        return truth(o, (field, phrase_text(d["v"]) if field not in na else d["v"][1:-1]) + suffix)
     if c == "Range":
         kw = {("gte" if d["il"] else "gt"): ch[0].get("v"), ("lte" if d["ih"] else "lt"): ch[1].get("v")}
         kw = {k: v for k, v in kw.items() if v and v != "*"}
         return truth(o, (field, json.dumps(kw, sort_keys=True)))
-    if c in ("Fuzzy", "Proximity", "Boost", "Group", "FieldGroup", "Plus"):
-        return rec(ch[0])
+    if c in ("Fuzzy", "Proximity"):
+        n = d["num"]
+        val = (-1 if n.get("neg") else 1) * int(n["coeff"]) * (10.0 ** n["exp"])
+        return rec(ch[0], mod=("fuzziness" if c == "Fuzzy" else "slop", val))
+    if c in ("Boost", "Group", "FieldGroup", "Plus"):
+        return rec(ch[0], mod=mod)
     if c in ("Not", "Prohibit"):
         return not rec(ch[0])
     if c == "AndOperation":
